@@ -201,6 +201,19 @@ Proof.
   - split; [reflexivity|]. intros t z E; discriminate.
 Qed.
 
+(* cache.CacheEntry.remaining as translated from the source is the model's [ae_remaining]: the entry's
+   cutUntil is a time.Time whose zero value ("no cut") is the model's [None] *)
+Definition ae_of (e : T_CacheEntry) : aentry :=
+  mk_ae 0%N (T_CacheEntry_stored e) (T_CacheEntry_ttl e)
+        (if T_CacheEntry_cutUntil e =? 0 then None else Some (T_CacheEntry_cutUntil e)) [].
+
+Lemma gen_CacheEntry_remaining : forall e now, go_CacheEntry_remaining e now = ae_remaining (ae_of e) now.
+Proof.
+  intros e now. unfold go_CacheEntry_remaining, ae_remaining, ae_of. cbn [ae_ttl ae_stored ae_cut].
+  destruct (Z.eqb_spec (T_CacheEntry_cutUntil e) 0); cbn [negb]; [reflexivity|].
+  destruct (T_CacheEntry_cutUntil e - now <? T_CacheEntry_ttl e - (now - T_CacheEntry_stored e)); reflexivity.
+Qed.
+
 (* ----------------------------------------------------- delegation cache *)
 
 Lemma dc_upd_same : forall c k v, dc_upd c k v k = v.
